@@ -127,6 +127,16 @@ def pdfStep (st : St) (ts : List String) : St × String :=
       | none => fin s "oob"
     | none => (st, "bad-op")
   | ["print"] => fin s "ok"
+  | "ctor" :: rest =>
+    -- `PDF(data, weights)` REPLACES the structure under test (then the history continues on the constructed object);
+    -- as coded the constructor is `add` in a loop: an exception out of the first `add` leaves the old object in place
+    match takeCounted rest with
+    | some (xs, []) =>
+      match xs.mapM parseFloatBits? with
+      | some ws =>
+        if (Pdf.ofWeights ws).data.size = ws.length then fin (Pdf.ofWeights ws) "ok" else fin s "err-neg"
+      | none => (st, "bad-op")
+    | _ => (st, "bad-op")
   | "bulk" :: rest =>
     match takeCounted rest with
     | some (xs, []) =>
